@@ -45,11 +45,13 @@ Definition OVERLAP : Z := 576.     (* self.samples_overlap *)
 Definition MARGIN : Z := 288.      (* self.samples_taper * 2 = int(576 / 4) * 2 *)
 Definition RECON_WINDOW : Z := 60000.  (* NP2Reconstructor.get_params: 2 * fs_ap *)
 
-(* init_params assertion: np.mod(nwindow, 12) == 0 ; WindowGenerator divides by nwindow - 576 *)
-Definition params_status (W : Z) : Z :=
-  if negb (W mod 12 =? 0) then 1          (* AssertionError *)
-  else if W =? OVERLAP then 2             (* ZeroDivisionError in WindowGenerator.__init__ *)
-  else 0.
+(* init_params assertions (all AssertionError, before anything is opened or written):
+     np.mod(nwindow, 12) == 0            "nwindow must be a factor of 12"
+     self.samples_window > self.samples_overlap   (repo 904fe91; without it a window <= 576 lost samples,
+                                                    never terminated, or divided by zero)
+   0 = accepted, 1 = AssertionError *)
+Definition admissible (W : Z) : bool := (W mod 12 =? 0) && (OVERLAP <? W).
+Definition params_status (W : Z) : Z := if admissible W then 0 else 1.
 
 (* ind2save = [288, W - 288]; first window -> start 0; window nwin-1 -> stop W *)
 Definition ind2save (W nwin iw : Z) : Z * Z :=
